@@ -31,6 +31,9 @@ type c08Params struct {
 	Kinds  []string `json:"kinds"`
 	Tagged bool     `json:"tagged"`
 	Late   bool     `json:"late"` // late-era layout (everything active) instead of a random compressed layout
+	// SnapWithheld: the layout is drawn so that a snapshot height S lies in [2.0, 2.0.2); nobody writes OPR
+	// or SPR records in block S (1) or in blocks S-1 and S (2): the block must still be applied.
+	SnapWithheld int `json:"snap_withheld"`
 }
 
 func init() {
@@ -96,10 +99,31 @@ func c08Run(j *orch.Job, r *orch.Result) error {
 	} else {
 		e = RandomEras(rng, true)
 	}
+	withheldAt := uint32(0)
+	if p.SnapWithheld > 0 {
+		// the SECOND snapshot height from 2.0 on (the first one that has a previous snapshot to compare
+		// with) must lie before 2.0.2: stretch that era
+		e = RandomEras(rng, true)
+		const d = 300
+		e.V202 += d
+		e.OneWaySmall += d
+		e.V204 += d
+		e.V204Burn += d
+		e.PIP10 += d
+		withheldAt = ((e.V20+143)/144)*144 + 144
+		if withheldAt+1 >= e.V202 || withheldAt+3 > e.Pegnet+uint32(p.Blocks) {
+			return fmt.Errorf("era layout does not put the second snapshot height (%d) before 2.0.2 (%d) within %d blocks", withheldAt, e.V202, p.Blocks)
+		}
+	}
 	mo := gen.DefaultMixedOpts()
 	mo.TxPerBlock = 4
 	m := gen.NewMixed(e, p.Seed, mo, 12)
 	setAvg(12)
+	if withheldAt > 0 {
+		m.ForceGraded[withheldAt-2] = true
+		m.ForceGraded[withheldAt-1] = true
+		m.ForceGraded[withheldAt+1] = true
+	}
 	hx := gen.NewHostile(m, p.Seed)
 	kinds := p.Kinds
 	if len(kinds) == 0 {
@@ -133,11 +157,15 @@ func c08Run(j *orch.Job, r *orch.Result) error {
 		spec.Tx = append([]forge.Entry{}, clean.Tx...)
 		kind := kinds[order[ki%len(order)]]
 		ki++
-		isSnap := h >= e.V20 && h%144 == 0 && h < e.V202
-		if kind == "opr-few" && isSnap {
-			kind = "opr-garbage" // an unrated snapshot height in [2.0, 2.0.2) is a recorded finding of its own
+		var desc string
+		if withheldAt > 0 && (h == withheldAt || (p.SnapWithheld == 2 && h+1 == withheldAt)) {
+			kind = "records-withheld-at-snapshot"
+			spec.OPR, spec.SPR = nil, nil
+			desc = fmt.Sprintf("no OPR and no SPR record in block %d (snapshot height %d lies between 2.0 and 2.0.2)", h, withheldAt)
+			r.Count("pre202_snapshot_blocks_without_records", 1)
+		} else {
+			desc = hx.Apply(kind, v, &spec)
 		}
-		desc := hx.Apply(kind, v, &spec)
 		// the SPR chain only matters from 2.0 on, but third parties can write to it at any time
 		if desc == "" {
 			kind = "none"
@@ -270,7 +298,8 @@ func checkC08(c *Ctx) *orch.Outcome {
 		"healthy fake factomd and database (faults are C10)",
 		"Factom-level malformations (bad Merkle roots, unparsable blocks) out of scope",
 		"\"always terminates\" is checked as bounded progress: at most 3 requests of the same directory block",
-		"shapes reproducing recorded legacy-era findings (bank-era batches mixing a PEG request with other transactions; unrated snapshot height in [2.0,2.0.2)) run in a tagged scenario and are reported as KNOWN-FINDING",
+		"shapes reproducing recorded legacy-era findings (bank-era batches mixing a PEG request with other transactions) run in a tagged scenario and are reported as KNOWN-FINDING",
+		"two chains per run withhold every OPR/SPR record at a snapshot height between 2.0 and 2.0.2 (once in that block only, once also in the block before)",
 	}
 	nJobs, blocks := 16, 130
 	if c.Thorough() {
@@ -297,6 +326,12 @@ func checkC08(c *Ctx) *orch.Outcome {
 			jobs = append(jobs, orch.Job{Kind: "c08.run", Name: fmt.Sprintf("c08-asan-%d", seed), Seed: seed, Params: pj, Timeout: 2400, ASan: true})
 			nASan++
 		}
+	}
+	// snapshot heights between 2.0 and 2.0.2 where nobody wrote a record
+	for i := 1; i <= 2; i++ {
+		seed := c.Seed*10000 + 8000 + int64(i)
+		pj, _ := json.Marshal(c08Params{Seed: seed, Blocks: 400, SnapWithheld: i})
+		jobs = append(jobs, orch.Job{Kind: "c08.run", Name: fmt.Sprintf("c08-snapshot-withheld-%d", i), Seed: seed, Params: pj, Timeout: 1500})
 	}
 	// tagged scenario: recorded findings
 	for i, k := range gen.TaggedHostileKinds {
@@ -342,6 +377,7 @@ func checkC08(c *Ctx) *orch.Outcome {
 	o.Nontrivial = int64(len(orch.UnionDistinct(rs, "kind_era")))
 	o.Extra["blocks_synced"] = orch.SumCounter(rs, "blocks")
 	o.Extra["hostile_entries"] = orch.SumCounter(rs, "hostile_entries")
+	o.Extra["pre202_snapshot_blocks_without_records"] = orch.SumCounter(rs, "pre202_snapshot_blocks_without_records")
 	o.Extra["kinds_applied"] = orch.UnionDistinct(rs, "kinds")
 	o.Extra["kind_era_combinations"] = len(orch.UnionDistinct(rs, "kind_era"))
 	if nASan > 0 {
